@@ -24,7 +24,7 @@ RULE = ("case = chunk of (start, stop, dt, reference, direction) combinations; t
         "reference in {none, start-5, start+3}; every combination is stepped Nsteps+2 times and probed at steps -5..Nsteps+5. Non-trivial: Nsteps >= 1; "
         "distinct by (duration, dt, direction, reference offset).")
 MANDATORY = ["forward", "reversed", "dt_not_dividing", "explicit_reference", "negative_steps_probed", "invariant_evaluations",
-             "period_spellings_compared", "malformed_rejected"]
+             "period_spellings_compared", "malformed_rejected", "resets_checked"]
 ASSUMPTIONS = ["step2nctime is exercised with the documented units s, m, h only",
                "negative periods and a trailing newline are accepted by normalize_period and are not called malformed by the property"]
 EXHAUSTIVE = {"quick": False, "thorough": False}
@@ -133,6 +133,17 @@ def _check_combo0(tk, S: int, E: int, d: int, R: int | None, dtspell: Any, V: li
                     break
     except InvariantBroken as e:
         bad("running clock != step2time(step) (icontract invariant)", err=str(e)[:200])
+    # reset() puts the clock back to the start: the clock/step pair must stay consistent and keep stepping
+    try:
+        t.reset()
+        sit["resets_checked"] = sit.get("resets_checked", 0) + 1
+        if sec(t.time) != S or t.step != 0:
+            bad(f"after reset(): step {t.step}, clock {t.time}; the clock reads the start time, i.e. step 0")
+        t.update()
+        if sec(t.time) != S + sgn * (t.step) * d:
+            bad(f"first update after reset(): step {t.step}, clock {t.time}")
+    except InvariantBroken as e:
+        bad("after reset(): running clock != step2time(step) (icontract invariant)", err=str(e)[:200])
     for n in range(-5, min(ns, 50) + 6):
         cnt["probes"] = cnt.get("probes", 0) + 1
         if n < 0:
